@@ -346,7 +346,7 @@ Fixpoint dep_polys (s : scope) : list (name * poly) :=
                    if intersects (vars e) (map fst iv) then
                      [(fst xe, poly_of (fun v => match lookup v iv with
                                                  | Some p => p
-                                                 | None => match get_param s v with
+                                                 | None => match get_param inner v with
                                                            | Some z => pconst z
                                                            | None => pvar v
                                                            end
@@ -411,7 +411,7 @@ Fixpoint remove_nth {A} (n : nat) (l : list A) : list A :=
 Definition check_merge_with_next (tabs : list prog) (n : nat) (mx : Z) : option (list prog) :=
   match nth_error tabs n, nth_error tabs (S n) with
   | Some a, Some b =>
-      if (cnt a =? 1) && (cnt b =? 1) && (len a + len b <? mx)
+      if (cnt a =? 1) && (cnt b =? 1) && negb (is_vol (rep_of a)) && negb (is_vol (rep_of b)) && (len a + len b <? mx)
       then Some (remove_nth (S n) (replace_nth n (set_kids (kids a ++ kids b) a) tabs))
       else None
   | _, _ => None
@@ -434,8 +434,17 @@ Fixpoint insert_after {A} (n : nat) (x y : A) (l : list A) : list A :=   (* l[n]
   | z :: r, S k => z :: insert_after k x y r
   end.
 
-Fixpoint split_until (fuel : nat) (mn : Z) (ch : list prog) (warn : bool) : result (list prog * bool) :=
-  if mn <=? Z.of_nat (length ch) then Ok (ch, warn) else
+(* decisions of one compilation, in the order they are taken (ghost output: the code has no such list).  Two
+   compilations with the same list took the same branch at every count-dependent test. *)
+Inductive dec :=
+| DRoot (enc : bool)                              (* TaborProgram.__init__: root encapsulated? *)
+| DSkip                                           (* sequence table long enough *)
+| DMergePrev | DMergeNext                         (* _check_merge_with_next succeeded *)
+| DUnroll (unrolled : bool) (splits : list nat)   (* _check_partial_unroll succeeded: unroll_children?, children split *)
+| DExtPrev | DExtNext.                            (* one iteration of a repeated neighbour moved into the table *)
+
+Fixpoint split_until (fuel : nat) (mn : Z) (ch : list prog) (warn : bool) : result (list prog * bool * list nat) :=
+  if mn <=? Z.of_nat (length ch) then Ok (ch, warn, []) else
   match fuel with
   | O => Err EFuel
   | S f =>
@@ -444,14 +453,18 @@ Fixpoint split_until (fuel : nat) (mn : Z) (ch : list prog) (warn : bool) : resu
       | Some i =>
           match nth_error ch i with
           | None => Err EFail
-          | Some c => split_until f mn (insert_after i (set_rep (Fixed (cnt c - 1)) c) (set_rep (Fixed 1) c) ch)
-                                  (warn || is_vol (rep_of c))
+          | Some c =>
+              match split_until f mn (insert_after i (set_rep (Fixed (cnt c - 1)) c) (set_rep (Fixed 1) c) ch)
+                                (warn || is_vol (rep_of c)) with
+              | Err k => Err k
+              | Ok (ch', w', idx) => Ok (ch', w', i :: idx)
+              end
           end
       end
   end.
 
 (* _check_partial_unroll: None = returned False *)
-Definition check_partial_unroll (st : prog) (mn : Z) (warn : bool) : result (option (prog * bool)) :=
+Definition check_partial_unroll (st : prog) (mn : Z) (warn : bool) : result (option (prog * bool * dec)) :=
   if is_vol (rep_of st) then Ok None else
   let total := fold_right (fun c acc => cnt c + acc) 0 (kids st) in
   if mn <=? total * cnt st then
@@ -460,44 +473,51 @@ Definition check_partial_unroll (st : prog) (mn : Z) (warn : bool) : result (opt
                else st in
     match split_until (Z.to_nat mn) mn (kids st1) warn with
     | Err k => Err k
-    | Ok (ch, w') => Ok (Some (set_kids ch st1, w'))
+    | Ok (ch, w', idx) => Ok (Some (set_kids ch st1, w', DUnroll (total <? mn) idx))
     end
   else Ok None.
 
-Fixpoint prepare (fuel : nat) (mn mx : Z) (i : nat) (tabs : list prog) (warn : bool) : result (list prog * bool) :=
+Definition push (d : dec) (r : result (list prog * bool * list dec)) : result (list prog * bool * list dec) :=
+  match r with Err k => Err k | Ok (t, w, tr) => Ok (t, w, d :: tr) end.
+
+(* extension of table i by one iteration of its neighbour j (the neighbour's count goes through the int setter; the
+   repaired code emits a VolatileModificationWarning when that count was volatile) *)
+Definition ext_prev (i : nat) (ti prev : prog) (tabs : list prog) : list prog :=
+  replace_nth (pred i) (set_rep (Fixed (cnt prev - 1)) prev) (replace_nth i (set_kids (kids prev ++ kids ti) ti) tabs).
+Definition ext_next (i : nat) (ti nxt : prog) (tabs : list prog) : list prog :=
+  replace_nth (S i) (set_rep (Fixed (cnt nxt - 1)) nxt) (replace_nth i (set_kids (kids ti ++ kids nxt) ti) tabs).
+
+Fixpoint prepare (fuel : nat) (mn mx : Z) (i : nat) (tabs : list prog) (warn : bool)
+  : result (list prog * bool * list dec) :=
   match fuel with
   | O => Err EFuel
   | S f =>
       match nth_error tabs i with
-      | None => Ok (tabs, warn)
+      | None => Ok (tabs, warn, [])
       | Some ti =>
           if mx <? len ti then Err ETabor
           else if len ti <? mn then
             if cnt ti <=? 0 then Err EAssert
-            else if cnt ti =? 1 then
+            else if (cnt ti =? 1) && negb (is_vol (rep_of ti)) then
               match (match i with O => None | S j => check_merge_with_next tabs j mx end) with
-              | Some tabs' => prepare f mn mx i tabs' warn
+              | Some tabs' => push DMergePrev (prepare f mn mx i tabs' warn)
               | None =>
                   match check_merge_with_next tabs i mx with
-                  | Some tabs' => prepare f mn mx i tabs' warn
+                  | Some tabs' => push DMergeNext (prepare f mn mx i tabs' warn)
                   | None =>
                       match check_partial_unroll ti mn warn with
                       | Err k => Err k
-                      | Ok (Some (ti', w')) => prepare f mn mx (S i) (replace_nth i ti' tabs) w'
+                      | Ok (Some (ti', w', d)) => push d (prepare f mn mx (S i) (replace_nth i ti' tabs) w')
                       | Ok None =>
                           match (match i with O => None | S j => nth_error tabs j end) with
                           | Some prev =>
                               if (1 <? cnt prev) && (len ti + len prev <? mx) then
-                                prepare f mn mx i
-                                  (replace_nth (pred i) (set_rep (Fixed (cnt prev - 1)) prev)
-                                     (replace_nth i (set_kids (kids prev ++ kids ti) ti) tabs)) warn
+                                push DExtPrev (prepare f mn mx i (ext_prev i ti prev tabs) (warn || is_vol (rep_of prev)))
                               else
                                 match nth_error tabs (S i) with
                                 | Some nxt =>
                                     if (1 <? cnt nxt) && (len ti + len nxt <? mx) then
-                                      prepare f mn mx i
-                                        (replace_nth (S i) (set_rep (Fixed (cnt nxt - 1)) nxt)
-                                           (replace_nth i (set_kids (kids ti ++ kids nxt) ti) tabs)) warn
+                                      push DExtNext (prepare f mn mx i (ext_next i ti nxt tabs) (warn || is_vol (rep_of nxt)))
                                     else Err ETabor
                                 | None => Err ETabor
                                 end
@@ -505,9 +525,7 @@ Fixpoint prepare (fuel : nat) (mn mx : Z) (i : nat) (tabs : list prog) (warn : b
                               match nth_error tabs (S i) with
                               | Some nxt =>
                                   if (1 <? cnt nxt) && (len ti + len nxt <? mx) then
-                                    prepare f mn mx i
-                                      (replace_nth (S i) (set_rep (Fixed (cnt nxt - 1)) nxt)
-                                         (replace_nth i (set_kids (kids ti ++ kids nxt) ti) tabs)) warn
+                                    push DExtNext (prepare f mn mx i (ext_next i ti nxt tabs) (warn || is_vol (rep_of nxt)))
                                   else Err ETabor
                               | None => Err ETabor
                               end
@@ -518,10 +536,10 @@ Fixpoint prepare (fuel : nat) (mn mx : Z) (i : nat) (tabs : list prog) (warn : b
             else
               match check_partial_unroll ti mn warn with
               | Err k => Err k
-              | Ok (Some (ti', w')) => prepare f mn mx (S i) (replace_nth i ti' tabs) w'
+              | Ok (Some (ti', w', d)) => push d (prepare f mn mx (S i) (replace_nth i ti' tabs) w')
               | Ok None => Err ETabor
               end
-          else prepare f mn mx (S i) tabs warn
+          else push DSkip (prepare f mn mx (S i) tabs warn)
       end
   end.
 
@@ -611,15 +629,18 @@ Definition parse_single (t : prog) : result tstate :=
 
 Inductive tmode := MSingle | MAdvanced.
 
-(* TaborProgram.__init__ *)
-Definition tabor_compile (fuel : nat) (mode : option tmode) (mn mx : Z) (t : prog) : result (tstate * bool) :=
+(* TaborProgram.__init__ (the repaired code also encapsulates a root whose count is volatile) *)
+Definition root_enc (t : prog) : bool := (1 <? cnt t) || is_vol (rep_of t) || (depth t =? 0).
+
+Definition tabor_compile (fuel : nat) (mode : option tmode) (mn mx : Z) (t : prog)
+  : result (tstate * bool * list dec) :=
   if negb (counts_ok t) then Err EFail else
-  let t1 := if (1 <? cnt t) || (depth t =? 0) then encapsulate t else t in
+  let t1 := if root_enc t then encapsulate t else t in
   let md := match mode with Some m => m | None => if 1 <? depth t1 then MAdvanced else MSingle end in
   match md with
   | MSingle =>
       if (depth t1 =? 1) && balanced t1 then
-        match parse_single t1 with Err k => Err k | Ok st => Ok (st, false) end
+        match parse_single t1 with Err k => Err k | Ok st => Ok (st, false, [DRoot (root_enc t)]) end
       else Err EAssert
   | MAdvanced =>
       if (1 <? depth t1) && (cnt t1 =? 1) then
@@ -628,11 +649,11 @@ Definition tabor_compile (fuel : nat) (mode : option tmode) (mn mx : Z) (t : pro
         | Ok (ch, w1) =>
             match prepare fuel mn mx 0 ch w1 with
             | Err k => Err k
-            | Ok (tabs, w2) =>
+            | Ok (tabs, w2, tr) =>
                 if forallb (fun tl => (mn <=? len tl) && (len tl <=? mx)) tabs then
                   match parse_aseq 0 tabs (mkT [] [] [] [] false) with
                   | Err k => Err k
-                  | Ok st => Ok (st, w2)
+                  | Ok st => Ok (st, w2, DRoot (root_enc t) :: tr)
                   end
                 else Err EAssert
             end
